@@ -1,5 +1,6 @@
 import BU.Properties.C08
 import BU.Properties.C08_Gen
+import BU.Properties.C08_GenAddr
 import BU.Properties.C08_GenTree
 import BU.Properties.C08_GenTweak
 import BU.Properties.C08_Key
@@ -19,6 +20,8 @@ import BU.Properties.C08_Key
 #print axioms C08Gen.tag_leaf
 #print axioms C08Gen.gen_tapbranch
 #print axioms C08Gen.gen_tapleaf
+#print axioms C08GenAddr.gen_to_taproot_hex
+#print axioms C08GenAddr.gen_address_commits
 #print axioms C08GenTree.gen_merkle_root
 #print axioms C08GenTree.gen_merkle_root_edge
 #print axioms C08GenTree.gen_calculate_tweak
